@@ -6,6 +6,11 @@
 patch="$1"; prop="$2"; tier="${3:-quick}"
 cd /verif
 log=/tmp/seedrun.$$.log
+# the check rewrites evidence/<prop>.json on every run: what a SEEDED tree produced
+# must never stay there (the committed evidence comes from /repo itself)
+evsave=/tmp/seedrun.$$.evidence.json
+cp "evidence/$prop.json" "$evsave" 2>/dev/null
+restore_evidence() { [ -f "$evsave" ] && mv "$evsave" "evidence/$prop.json"; }
 if [ -n "$SEED_IN_PLACE" ]; then
   git -C /repo apply "$patch" || { echo "patch does not apply"; exit 2; }
   ./check.sh "$prop" "$tier" > $log 2>&1; rc=$?
@@ -17,6 +22,7 @@ else
   VERIF_REPO="$wt" ./check.sh "$prop" "$tier" > $log 2>&1; rc=$?
   git -C /repo worktree remove --force "$wt"
 fi
+restore_evidence
 echo "patch=$patch property=$prop tier=$tier exit=$rc violations=$(grep -c '^VIOLATION' $log) known=$(grep -c '^KNOWN-FINDING' $log) engine=$(grep -c '^ENGINE-ERROR' $log)"
 grep -A1 '^VIOLATION' $log | grep fingerprint | head -8
 grep '^ENGINE-ERROR' $log | head -3 | cut -c1-300
